@@ -26,7 +26,9 @@ def assist(project, source, position, filename=None, debug=False):
     ctx = EvalCtx(project)
     ln, col = position
     line = source.lines[ln - 1][:col]
-    if line.lstrip().startswith('from ') and ' import ' not in line:
+    continued = ln > 1 and source.lines[ln - 2].rstrip().endswith('\\')
+    if line.lstrip().startswith('from ') and ' import ' not in line and not continued:
+        # (on a continuation line `from` belongs to a raise or a yield)
         iname = line.rpartition(' ')[2]
         package, sep, prefix = iname.rpartition('.')
         if (not package or package.startswith('.')) and sep:
